@@ -61,7 +61,7 @@ CHECKS = {
     ),
     "C01": dict(
         modules=["AggkitModel.Properties.C01"],
-        scenarios=[dict(name="tree")],
+        scenarios=[dict(name="tree"), dict(name="bridgestore")],
         generated=[],
         leanchecker=True,
         level_text="Proved in Lean 4 (any height, any hash algebra, H.Inj): C01_root — after ANY well-formed history (blocks committed or rolled back at any point, restarts, reorgs) the root reported "
@@ -106,5 +106,50 @@ CHECKS = {
              "event index drawn mostly from indexes present in the tree; separate malformed stream (non-claim selectors / short input addressed to the bridge); distinct non-trivial = distinct trace lines",
         assumptions=["every call addressed to the bridge is a claim call (the property's own restriction) for completeness; soundness needs nothing"],
         trusted_base=["hand model Model/ClaimTrace.lean"],
+    ),
+    "C04": dict(
+        modules=["AggkitModel.Properties.C04"],
+        scenarios=[dict(name="bridgestore")],
+        generated=["Schema"],
+        leanchecker=True,
+        level_text="Proved in Lean 4: C04_tree_roots — any two well-formed histories (blocks, rollbacks, restarts, reorgs incl. nested/repeated ones and continuations on the new fork) with the same surviving leaves serve the same exit root "
+                   "for every deposit count (with C08_appendonly: the same leaves and verifying proofs), i.e. tree queries after a reorg are those of a node that never saw the dropped blocks; C04_tables — after Reorg(b) block and event tables hold exactly the entries of blocks < b; "
+                   "C04_event_keeps_earlier_rows — without legacy-token removals processing never touches rows of earlier blocks. PARTIAL: the full statement is FALSE for histories with RemoveLegacyToken events (C04_full_false_with_rmLegacy proves the witness on the model; "
+                   "KNOWN-FINDING F3 replays it on the real code). Tie: the real bridge processor + BridgeSync facade vs the compiled model on the same blocks/faults/reorgs/restarts, all queries compared; monitor = a fresh real processor fed only the surviving blocks must answer every query identically. "
+                   "The L1-info-tree and injected-GER stores are not yet covered by this check.",
+        level_note="Trusted: Lean kernel; H.Inj; model/code correspondence (generator-bounded); SQLite cascade semantics exercised through the real schema, modelled as a filter. Covers the bridge store only in this round.",
+        rule="seeded worlds of 14-25 steps: blocks with 0-5 events of all five kinds, faulted attempts + retries, reorg points uniform in [first-1, tip+2] (above tip, at first block, nested), restarts, deposit-count gaps; "
+             "distinct non-trivial = distinct twin comparisons and (root, position) proof checks",
+        assumptions=["H.Inj", "WFhistory", "no RemoveLegacyToken events (partial; F3 recorded)"],
+        trusted_base=["hand model Model/BridgeStore.lean", "model of package tree"],
+    ),
+    "C07": dict(
+        modules=["AggkitModel.Properties.C07"],
+        scenarios=[dict(name="bridgestore"), dict(name="tree")],
+        generated=[],
+        leanchecker=True,
+        level_text="Proved in Lean 4: C07_atomic — for every block and EVERY index of the failing write statement (and for duplicate keys, deposit gaps, refusal while halted): a ProcessBlock that does not return success leaves blocks, event rows, exit-tree roots and nodes exactly as before; "
+                   "C07_retry_clean_roots — a block attempt rolled back after any number of its leaves, incl. a fault inside AddLeaf's store statements, followed by anything, serves exactly the roots of a run in which the attempt never happened (corollary of the history induction runHistory_inv; "
+                   "with C08_appendonly also the same leaves/proofs); C07_inconsistent_means_halted + C14_refuses_while_halted — the only error the driver does not retry leaves the processor halted, so no later block is recorded while an earlier one is missing. "
+                   "Tie: real bridge processor with SQL-trigger faults at a chosen write statement (bridgestore) and real tree package with statement-level faults incl. reads (tree); retry compared with a fault-free twin. "
+                   "Genuine defects found by this check and fixed in /repo: F1 (rollback left the frontier polluted), F14 (initCache advanced lastIndex before the cache was rebuilt), F2 (transient AddLeaf error reported as inconsistency without halting).",
+        level_note="Trusted: Lean kernel; H.Inj; model/code correspondence (generator-bounded). Process kill = rollback of the open transaction + restart (SQLite atomic commit trusted). The driver's retry loop is argued from the two theorems, not modelled as a goroutine. L1-info and GER stores not yet covered.",
+        rule="bridgestore: 35% of blocks get 1-2 faulted attempts at a uniformly chosen write statement (block insert, root/rht inserts inside AddLeaf, row inserts, legacy deletes) before a clean retry, some with a restart in between; "
+             "tree: statement-level faults incl. SELECTs in initCache; distinct non-trivial = distinct twin comparisons",
+        assumptions=["H.Inj", "WFhistory"],
+        trusted_base=["hand model Model/BridgeStore.lean", "model of package tree"],
+    ),
+    "C14": dict(
+        modules=["AggkitModel.Properties.C14"],
+        scenarios=[dict(name="bridgestore")],
+        generated=["QueryTable"],
+        leanchecker=True,
+        level_text="Proved in Lean 4: C14_all_queries_guarded — `decide` over the table of ALL exported methods of *BridgeSync and *L1InfoTreeSync, REGENERATED from the Go source on every run (entry points added later appear in the table automatically): every data query starts with the halted guard returning ErrInconsistentState; "
+                   "C14_processor_facts — both ProcessBlock start with the guard and both Reorg un-halt through RowsAffected() of the block delete, after commit (facts extracted from source); C14_refuses_while_halted, C14_unhalt_iff (cleared iff the reorg removed at least one processed block) on the store model. "
+                   "Tie: on a really halted real processor every exported method of the facade is called by reflection and must return ErrInconsistentState; reorgs above the tip must not clear the flag.",
+        level_note="Trusted: Lean kernel; goextract's syntactic guard recognition (first statement is `if s.processor.isHalted() { … return …, sync.ErrInconsistentState }`); correspondence run. L1InfoTreeSync's runtime half is not yet exercised by a scenario (its table half is).",
+        rule="halting through deposit-count gaps in 8% of steps, then reflection over every exported facade method, queries, a refused block, a reorg that removes nothing, then reorgs/restarts; distinct non-trivial as for C04",
+        assumptions=[],
+        trusted_base=["goextract QueryTable extractor", "hand model Model/BridgeStore.lean"],
     ),
 }
